@@ -14,6 +14,7 @@ import GojaModel.C15.Sim
 import GojaModel.C15.Observe
 import GojaModel.C15.Deliver
 import GojaModel.C15.Commute
+import GojaModel.C15.Race
 import GojaModel.C15.Drf
 
 namespace GojaModel.C15.Props
@@ -76,6 +77,73 @@ theorem after_interrupt_idle_and_queue_empty {s s' : S} (h : step s .rReturn = s
     subst h; rename_i hd
     exact ⟨rfl, rfl, rfl, hd, v, hv, rfl⟩
   · simp at h
+
+/-! ### ClearInterrupt racing Interrupt; several interrupting goroutines (Race.lean) — ARBITRARY executions from the
+    initial state: any number of goroutines, ClearInterrupt at any moment, no quietness assumption -/
+
+/-- interruptLock is exclusive: at most one Interrupt call is inside its critical section, and none while the runner
+    holds the lock to read the value. -/
+theorem interrupt_lock_is_exclusive {s : S} {ls : List Label} (h : run init ls = some s) :
+    (∀ t t', s.ipc t ≠ .idle → s.ipc t' ≠ .idle → t = t') ∧
+    ((s.rpc = .haveLock ∨ ∃ v, s.rpc = .gotVal v) → ∀ t, s.ipc t = .idle) := by
+  have M := (run_raceInv h raceInv_init).mutex
+  exact ⟨fun t t' a b => M.unique a b, M.runner_excludes⟩
+
+/-- ClearInterrupt (an unlocked atomic store of 0) racing with any number of Interrupt calls: in EVERY reachable state
+    the runtime is either clean (flag clear) or interrupted with a value, and that value is the LAST one written — a set
+    flag without a value, or with an older value than the latest write, is impossible. -/
+theorem flag_never_without_last_value {s : S} {ls : List Label} (h : run init ls = some s) :
+    s.flag = false ∨ (s.flag = true ∧ s.hist ≠ [] ∧ s.hist.getLast? = some s.val) := by
+  have I := (run_raceInv h raceInv_init).val
+  cases hf : s.flag with
+  | false => exact Or.inl rfl
+  | true => exact Or.inr ⟨rfl, I.flagNE hf, I.last (I.flagNE hf)⟩
+
+/-- The flag cell is sequentially consistent: in every reachable state its value is the LAST write to it in interleaving
+    order — 1 by an Interrupt's store, 0 by ClearInterrupt or by the outermost recover (leaveAbrupt).  Together with
+    `flag_never_without_last_value` this decides every Interrupt/ClearInterrupt race: the execution ends clean iff the last
+    such write is a clearing one, and otherwise interrupted with the last written value. -/
+theorem flag_is_the_last_write {s : S} {ls : List Label} (h : run init ls = some s) :
+    s.flag = (lastFlagWrite ls).getD false ∧
+    (lastFlagWrite ls = some true → s.hist ≠ [] ∧ s.hist.getLast? = some s.val) := by
+  have f : s.flag = (lastFlagWrite ls).getD false := run_flag h
+  refine ⟨f, ?_⟩
+  intro hl
+  have ht : s.flag = true := by rw [f, hl]; rfl
+  have I := (run_raceInv h raceInv_init).val
+  exact ⟨I.flagNE ht, I.last (I.flagNE ht)⟩
+
+/-- NORMAL FORM for several interrupting goroutines.  Cut any execution at the moment the runner has the lock: every
+    Interrupt call that took the lock before has completed (written, stored, unlocked), the history is exactly the list of
+    their arguments in lock order, and the runner reads the argument of the LAST of them. -/
+theorem reported_value_is_last_interrupt_in_lock_order {s : S} {pre : List Label} (h : run init pre = some s)
+    (hr : s.rpc = .haveLock) :
+    (∀ t, s.ipc t = .idle) ∧ s.hist = lockArgs pre ∧
+    step s .rRead = some { s with rpc := .gotVal s.val } ∧ (lockArgs pre).getLast? = some s.val := by
+  have R := run_raceInv h raceInv_init
+  have idle := R.mutex.runner_excludes (Or.inl hr)
+  have rep := run_rep h mutex_init rep_init
+  have hh : s.hist = lockArgs pre := by
+    rcases rep with ⟨t, v, a, _⟩ | ⟨_, b⟩
+    · rw [idle t] at a; cases a
+    · simpa using b.symm
+  have hne := R.val.runnerNE (Or.inr hr)
+  exact ⟨idle, hh, by simp [step, hr], by rw [← hh]; exact R.val.last hne⟩
+
+/-- A value the runner is raising, or that an API call has returned in its InterruptedError, was passed to Interrupt by
+    some goroutine in this execution — whatever ClearInterrupt calls raced with it. -/
+theorem returned_value_was_passed_to_interrupt {s : S} {ls : List Label} (h : run init ls = some s) (v : Nat)
+    (hv : s.rpc = .raised v ∨ s.rpc = .gotVal v ∨ s.result = some v) : ∃ t, Label.iLock t v ∈ ls := by
+  have P := (run_raceInv h raceInv_init).prov
+  have hm : v ∈ s.hist := by
+    rcases hv with a | a | a
+    · exact P.got v (Or.inr a)
+    · exact P.got v (Or.inl a)
+    · exact P.res v a
+  rcases (run_hist_from_calls h).1 v hm with a | ⟨t, a⟩ | a
+  · simp [init] at a
+  · simp [init] at a
+  · exact a
 
 /-! ### sequential mechanism -/
 
